@@ -187,6 +187,7 @@ def showArr (X : Arr) : String := if X.size = 0 then "[]" else "|".intercalate (
 
 def parsePArg (s : String) : Option (PArg Float) :=
   if s = "n" then some .none
+  else if s = "m" then some .malformed
   else if s.startsWith "s" then (parseFloat? (s.drop 1).toString).map .scalar
   else if s.startsWith "v" then (parseFloatList? (s.drop 1).toString).map .vec
   else none
@@ -217,6 +218,7 @@ def parseOp (tok : String) : Option (Op Arr Float) :=
       let nsl ← parseNatList? nsl
       pure (.solve (cf = "1") ns p ⟨f, ff, filt, isH = "1", nsl⟩)
   | ["clear"] => some .clear
+  | ["setinit", a] => some (.setInit (a = "1"))
   | ["rF"] => some .readF
   | ["rFF"] => some .readFullF
   | ["rW"] => some .readW
